@@ -393,6 +393,10 @@ func checkC12(c *Check) {
 	c.Rule("R6", "shared with C08 (R4)", "a bind name occurs once along a route (every name, no exemptions): values are substituted by name, so two binds of one name cannot both reproduce the request path", 8)
 	c.Share("C08", []string{"R4"}, 8)
 
+	// ---- R7 the values a request hands over are paired with the right names
+	c.Rule("R7", "shared with C02 (R3)", "building with a request's parameters reproduces the path only if each bind received its own sub-match: the group-aware pairing of the regex matchers (and the rule for dropping the group table) is part of this property", 5)
+	c.Share("C02", []string{"R3"}, 5)
+
 	// ---- R5 router front end
 	c.Rule("R5", "E1/E3", "router.URLPath panics on an unknown name before use, turns pairs into a map by (i-1, i), honours and removes withOptional; Name() panics on empty/duplicate names before storing; Context.URLPath forwards unchanged", 6)
 	if ru := p.Meth("flamego", "router", "URLPath"); ru != nil {
